@@ -473,8 +473,8 @@ Proof.
   - (* inv_par *)
     intros K p L Hp. assert (Hk : exists a, jobof st p = Some a).
     { destruct (LV K L) as [Kj [->|[Ki LK]]].
-      - apply PAi in Hp as [Hp|Hp]; eapply (inv_par _ HI); eassumption.
-      - rewrite PAo in Hp by exact Ki. eapply (inv_par _ HI); eassumption. }
+      - apply PAi in Hp as [Hp|Hp]; [apply (inv_par _ HI i p Li Hp)|apply (inv_par _ HI j p Lj Hp)].
+      - rewrite PAo in Hp by exact Ki. apply (inv_par _ HI K p LK Hp). }
     destruct Hk as [a Ha]. rewrite JF, Ha. simpl. eauto.
   - (* inv_closed *)
     intros K p J' L Hp HJ. rewrite JF in HJ. destruct (jobof st p) as [A|] eqn:EA; [|discriminate].
@@ -526,4 +526,722 @@ Proof.
   - (* inv_acyclic *)
     intros J P. apply (t1n_map _ _ _ _ EE) in P.
     exact (contract_acyclic nat Nat.eq_dec (E st) i j (inv_acyclic _ HI) Nij Nji J P).
+Qed.
+
+(* ------------------------------------------------------------------ the merge loops *)
+Definition same_tables (st st' : sstate) : Prop :=
+  st_n2j st' = st_n2j st /\ st_v2n st' = st_v2n st /\ st_ref st' = st_ref st /\
+  (forall v, jobof st' v = None <-> jobof st v = None).
+
+Lemma same_tables_refl st : same_tables st st.
+Proof. repeat split; auto. Qed.
+
+Lemma same_tables_trans a b c : same_tables a b -> same_tables b c -> same_tables a c.
+Proof.
+  intros (A1 & A2 & A3 & A4) (B1 & B2 & B3 & B4). repeat split; try congruence.
+  - intros H. apply A4, B4, H.
+  - intros H. apply B4, A4, H.
+Qed.
+
+Lemma merge_inner_spec : forall rem i st todo st',
+  merge_inner i rem st = Ok (todo, st') ->
+  Inv st -> live st i -> (forall j, In j rem -> live st j) -> ~ In i rem -> NoDup rem ->
+  Inv st' /\ live st' i /\ (forall j, In j todo -> In j rem /\ live st' j) /\ NoDup todo /\
+  (forall k, ~ In k rem -> live st k -> live st' k) /\ (forall k, live st' k -> live st k) /\
+  same_tables st st' /\ (forall k, In k rem -> live st' k -> In k todo).
+Proof.
+  induction rem as [|j r IH]; intros i st todo st' H HI Li Lr Ni ND; simpl in H.
+  - inversion H; subst. split; [exact HI|]. split; [exact Li|]. split; [intros ? []|]. split; [constructor|].
+    split; [auto|]. split; [auto|]. split; [apply same_tables_refl|intros ? []].
+  - assert (Hji : j <> i) by (intros ->; apply Ni; left; reflexivity).
+    assert (Nir : ~ In i r) by (intros Hx; apply Ni; right; exact Hx).
+    inversion ND as [|? ? Njr NDr]; subst.
+    destruct (reaches st i j || reaches st j i) eqn:Et.
+    + destruct (merge_inner i r st) as [[todo0 st0]| |] eqn:Em; try discriminate.
+      inversion H; subst; clear H.
+      destruct (IH i st todo0 st' Em HI Li (fun k Hk => Lr k (or_intror Hk)) Nir NDr)
+        as (I' & Li' & T & NDt & O & B & S & D).
+      split; [exact I'|]. split; [exact Li'|]. split; [|split; [|split; [|split; [exact B|split; [exact S|]]]]].
+      4:{ intros k [<-|Hk] Lk; [left; reflexivity|right; apply D; assumption]. }
+      * intros k [<-|Hk].
+        -- split; [left; reflexivity|]. apply O; [exact Njr|]. apply Lr. left. reflexivity.
+        -- destruct (T k Hk). split; [right|]; assumption.
+      * constructor; [|exact NDt]. intros Hx. apply Njr. apply T. exact Hx.
+      * intros k Hk Lk. apply O; [|exact Lk]. intros Hx. apply Hk. right. exact Hx.
+    + apply orb_false_iff in Et as [Rij Rji].
+      destruct (merge_two st i j) as [st1| |] eqn:E2; try discriminate.
+      assert (Lj : live st j) by (apply Lr; left; reflexivity).
+      destruct (merge_two_inv st i j st1 HI Li Lj (fun e => Hji (eq_sym e)) Rij Rji E2)
+        as (I1 & JF & T1 & T2 & T3 & _ & _ & _).
+      assert (LK : forall k, k <> j -> live st k -> live st1 k).
+      { intros k Hk (v & Hv). exists v. rewrite JF, Hv. simpl. unfold cfn. destruct (Nat.eq_dec k j); congruence. }
+      assert (LB : forall k, live st1 k -> live st k).
+      { intros k (v & Hv). rewrite JF in Hv. destruct (jobof st v) as [k0|] eqn:Ek; [|discriminate].
+        simpl in Hv. inversion Hv; subst k. unfold cfn. destruct (Nat.eq_dec k0 j); [exact Li|exists v; exact Ek]. }
+      destruct (IH i st1 todo st' H I1 (LK i (fun e => Hji (eq_sym e)) Li)) as (I' & Li' & T & NDt & O & B & S & D); auto.
+      { intros k Hk. apply LK; [intros ->; contradiction|]. apply Lr. right. exact Hk. }
+      assert (Dj : ~ live st1 j).
+      { intros (v & Hv). rewrite JF in Hv. destruct (jobof st v) as [k0|]; [|discriminate]. simpl in Hv.
+        inversion Hv as [Hc]. unfold cfn in Hc. destruct (Nat.eq_dec k0 j); congruence. }
+      split; [exact I'|]. split; [exact Li'|]. split; [|split; [exact NDt|split; [|split; [|split]]]].
+      5:{ intros k [<-|Hk] Lk; [exfalso; apply Dj, B, Lk|apply D; assumption]. }
+      * intros k Hk. destruct (T k Hk). split; [right|]; assumption.
+      * intros k Hk Lk. apply O; [intros Hx; apply Hk; right; exact Hx|].
+        apply LK; [intros ->; apply Hk; left; reflexivity|exact Lk].
+      * intros k Lk. apply LB, B, Lk.
+      * eapply same_tables_trans; [|exact S]. split; [exact T1|]. split; [exact T2|]. split; [exact T3|].
+        intros v. split; intros Hn.
+        -- rewrite JF in Hn. destruct (jobof st v); [discriminate|reflexivity].
+        -- rewrite JF, Hn. reflexivity.
+Qed.
+
+Lemma merge_name_spec : forall fuel todo st jobs st',
+  merge_name fuel todo st = Ok (jobs, st') ->
+  Inv st -> (forall j, In j todo -> live st j) -> NoDup todo ->
+  Inv st' /\ (forall j, In j jobs -> In j todo /\ live st' j) /\ NoDup jobs /\
+  (forall k, ~ In k todo -> live st k -> live st' k) /\ (forall k, live st' k -> live st k) /\
+  same_tables st st' /\ (forall k, In k todo -> live st' k -> In k jobs).
+Proof.
+  induction fuel as [|f IH]; intros todo st jobs st' H HI Lt ND; [discriminate|].
+  simpl in H. destruct todo as [|i remaining].
+  - inversion H; subst. split; [exact HI|]. split; [intros ? []|]. split; [constructor|].
+    split; [auto|]. split; [auto|]. split; [apply same_tables_refl|intros ? []].
+  - inversion ND as [|? ? Ni NDr]; subst.
+    destruct (merge_inner i remaining st) as [[todo' st1]| |] eqn:Ei; try discriminate.
+    destruct (merge_name f todo' st1) as [[jobs0 st2]| |] eqn:En; try discriminate.
+    inversion H; subst; clear H.
+    destruct (merge_inner_spec remaining i st todo' st1 Ei HI (Lt i (or_introl eq_refl))
+                (fun k Hk => Lt k (or_intror Hk)) Ni NDr) as (I1 & Li1 & T1 & ND1 & O1 & B1 & S1 & D1).
+    destruct (IH todo' st1 jobs0 st' En I1 (fun k Hk => proj2 (T1 k Hk)) ND1) as (I2 & T2 & ND2 & O2 & B2 & S2 & D2).
+    assert (Ni' : ~ In i todo') by (intros Hx; apply Ni; apply T1; exact Hx).
+    split; [exact I2|]. split; [|split; [|split; [|split; [|split]]]].
+    6:{ intros k [<-|Hk] Lk; [left; reflexivity|right]. apply D2; [|exact Lk]. apply D1; [exact Hk|apply B2, Lk]. }
+    + intros k [<-|Hk].
+      * split; [left; reflexivity|]. apply O2; assumption.
+      * destruct (T2 k Hk) as [A B]. split; [right; apply T1; exact A|exact B].
+    + constructor; [|exact ND2]. intros Hx. apply Ni'. apply T2. exact Hx.
+    + intros k Hk Lk. apply O2.
+      * intros Hx. apply Hk. right. apply T1. exact Hx.
+      * apply O1; [intros Hx; apply Hk; right; exact Hx|exact Lk].
+    + intros k Lk. apply B1, B2, Lk.
+    + eapply same_tables_trans; eassumption.
+Qed.
+
+(* ---- the lists of nameToJobs *)
+Definition jobs_listed (st : sstate) : list nat := flat_map snd (st_n2j st).
+
+Record LInv (st : sstate) : Prop := {
+  li_nodup : NoDup (jobs_listed st);
+  li_live : forall j, In j (jobs_listed st) -> live st j;
+  li_all : forall j, live st j -> In j (jobs_listed st)
+}.
+
+Lemma NoDup_app_iff {A} (l1 l2 : list A) :
+  NoDup (l1 ++ l2) <-> NoDup l1 /\ NoDup l2 /\ (forall x, In x l1 -> ~ In x l2).
+Proof.
+  induction l1 as [|a l1 IH]; simpl.
+  - split; [intros H; repeat split; auto; constructor|tauto].
+  - split.
+    + intros H. inversion H as [|? ? Hn Hd]; subst. apply IH in Hd as (A1 & A2 & A3).
+      split; [constructor; [intros Hx; apply Hn, in_or_app; auto|exact A1]|].
+      split; [exact A2|]. intros x [<-|Hx]; [intros Hx; apply Hn, in_or_app; auto|auto].
+    + intros (A1 & A2 & A3). inversion A1 as [|? ? Hn Hd]; subst. constructor.
+      * intros Hx. apply in_app_or in Hx as [Hx|Hx]; [auto|]. exact (A3 a (or_introl eq_refl) Hx).
+      * apply IH. repeat split; auto.
+Qed.
+
+Lemma lookup_str_split {A} (k : str) (f : option A -> A) (m : list (str * A)) (v : A) :
+  lookup_str k m = Some v ->
+  exists a k' b, m = a ++ (k', v) :: b /\ update_str k f m = a ++ (k', f (Some v)) :: b.
+Proof.
+  induction m as [|[k0 v0] m IH]; simpl; [discriminate|].
+  destruct (str_eqb k k0) eqn:E.
+  - intros H. inversion H; subst. exists [], k0, m. split; reflexivity.
+  - intros H. destruct (IH H) as (a & k' & b & -> & ->). exists ((k0, v0) :: a), k', b. split; reflexivity.
+Qed.
+
+Definition same_tables2 (st st' : sstate) : Prop :=
+  st_v2n st' = st_v2n st /\ st_ref st' = st_ref st /\ (forall v, jobof st' v = None <-> jobof st v = None).
+
+Lemma merge_names_spec : forall names st st',
+  merge_names names st = Ok st' -> Inv st -> LInv st ->
+  Inv st' /\ LInv st' /\ same_tables2 st st'.
+Proof.
+  induction names as [|name rest IH]; intros st st' H HI HL; cbn [merge_names] in H.
+  - inversion H; subst. split; [exact HI|]. split; [exact HL|]. repeat split; auto.
+  - destruct (lookup_str name (st_n2j st)) as [todo|] eqn:El; [|discriminate].
+    destruct (merge_name (S (length todo)) todo st) as [[jobs st1]| |] eqn:Em; try discriminate.
+    destruct (lookup_str_split name (fun _ => jobs) _ _ El) as (a & k' & b & Hm & Hu).
+    assert (Hl : jobs_listed st = flat_map snd a ++ todo ++ flat_map snd b).
+    { unfold jobs_listed. rewrite Hm, flat_map_app. reflexivity. }
+    destruct HL as [L1 L2 L3]. rewrite Hl in L1, L2, L3.
+    apply NoDup_app_iff in L1 as (Na & Ntb & Dab). apply NoDup_app_iff in Ntb as (Nt & Nb & Dtb).
+    destruct (merge_name_spec _ _ _ _ _ Em HI) as (I1 & T1 & ND1 & O1 & B1 & (S1 & S2 & S3 & S4) & D1); auto.
+    { intros j Hj. apply L2. apply in_or_app. right. apply in_or_app. left. exact Hj. }
+    set (st2 := set_n2j st1 (update_str name (fun _ => jobs) (st_n2j st1))) in *.
+    assert (I2 : Inv st2) by (destruct I1; constructor; assumption).
+    assert (Hl2 : jobs_listed st2 = flat_map snd a ++ jobs ++ flat_map snd b).
+    { unfold jobs_listed, st2. simpl. rewrite S1, Hu, flat_map_app. reflexivity. }
+    assert (L2' : LInv st2).
+    { constructor; rewrite Hl2.
+      - apply NoDup_app_iff. split; [exact Na|]. split.
+        + apply NoDup_app_iff. split; [exact ND1|]. split; [exact Nb|].
+          intros x Hx. apply Dtb. apply T1. exact Hx.
+        + intros x Hx Hy. apply (Dab x Hx). apply in_app_or in Hy as [Hy|Hy]; apply in_or_app; [left|right; exact Hy].
+          apply T1. exact Hy.
+      - intros j Hj. change (live st1 j). apply in_app_or in Hj as [Hj|Hj].
+        + apply O1; [|apply L2; apply in_or_app; left; exact Hj]. intros Hx. apply (Dab j Hj). apply in_or_app. left. exact Hx.
+        + apply in_app_or in Hj as [Hj|Hj]; [apply T1; exact Hj|].
+          apply O1; [|apply L2; apply in_or_app; right; apply in_or_app; right; exact Hj].
+          intros Hx. exact (Dtb j Hx Hj).
+      - intros j Lj. change (live st1 j) in Lj. pose proof (L3 j (B1 j Lj)) as Hin.
+        apply in_app_or in Hin as [Hin|Hin]; [apply in_or_app; left; exact Hin|].
+        apply in_app_or in Hin as [Hin|Hin]; apply in_or_app; right; apply in_or_app; [left|right; exact Hin].
+        apply D1; assumption. }
+    destruct (IH st2 st' H I2 L2') as (I' & L' & (U1 & U2 & U3)).
+    split; [exact I'|]. split; [exact L'|]. split; [rewrite U1; exact S2|]. split; [rewrite U2; exact S3|].
+    intros v. rewrite U3. apply S4.
+Qed.
+
+Lemma merge_all_spec st st' :
+  merge_all st = Ok st' -> Inv st -> LInv st -> Inv st' /\ LInv st' /\ same_tables2 st st'.
+Proof. apply merge_names_spec. Qed.
+
+(* ------------------------------------------------------------------ the spanning phase *)
+Definition known (st : sstate) (v : N) : Prop := exists j, jobof st v = Some j.
+Definition reach (st : sstate) (j : nat) : vset := reach_set (get_job st j).
+
+Lemma In_reach st j x : In x (reach st j) <-> In x (pk st j) \/ In x (ch st j).
+Proof. unfold reach, reach_set, pk, ch. apply In_union. Qed.
+
+Lemma lookup_nat_cons {A} k k' (v : A) m :
+  lookup_nat k ((k', v) :: m) = if Nat.eqb k k' then Some v else lookup_nat k m.
+Proof. reflexivity. Qed.
+
+Lemma lookupN_cons {A} k k' (v : A) m :
+  lookupN k ((k', v) :: m) = if N.eqb k k' then Some v else lookupN k m.
+Proof. reflexivity. Qed.
+
+Record Frame (stk : list N) (ps : vset) (st st' : sstate) : Prop := {
+  fr_next : st_next st <= st_next st';
+  fr_jobof : forall v j, jobof st v = Some j -> jobof st' v = Some j;
+  fr_pk : forall j, j < st_next st -> pk st' j = pk st j;
+  fr_pa : forall j, j < st_next st -> sub (pa st j) (pa st' j);
+  fr_ch : forall j, j < st_next st -> sub (ch st j) (ch st' j);
+  fr_frozen : forall k j, jobof st k = Some j -> ~ In k stk -> sub (ch st' j) (ch st j);
+  fr_fresh : forall k j, jobof st' k = Some j -> jobof st k = None -> st_next st <= j;
+  (* parents that appear are the caller's packages or new packages *)
+  fr_pa_new : forall k j q, jobof st' k = Some j -> In q (pa st' j) ->
+              (jobof st k = Some j /\ In q (pa st j)) \/ In q ps \/ jobof st q = None
+}.
+
+Lemma Frame_refl stk ps st : Frame stk ps st st.
+Proof.
+  constructor; auto; try (intros; apply sub_refl).
+  intros k j H1 H2. congruence.
+Qed.
+
+Record SI (stk : list N) (st : sstate) : Prop := {
+  si_pk : forall v j, jobof st v = Some j -> pk st j = [v] /\ j < st_next st;
+  si_even : forall v j, jobof st v = Some j -> N.even v = true;
+  si_par : forall k jk q, jobof st k = Some jk -> In q (pa st jk) -> known st q /\ (k < q)%N;
+  si_closed : forall k jk q jq, jobof st k = Some jk -> In q (pa st jk) -> ~ In q stk ->
+              jobof st q = Some jq -> sub (reach st jk) (ch st jq);
+  si_stk_par : forall p jp q, In p stk -> jobof st p = Some jp -> In q (pa st jp) -> In q stk;
+  si_stk_known : forall p, In p stk -> known st p;
+  si_nodup : NoDup (jobs_listed st);
+  si_listed : forall j, In j (jobs_listed st) <-> live st j
+}.
+
+Lemma SI_inj stk st v v' j : SI stk st -> jobof st v = Some j -> jobof st v' = Some j -> v = v'.
+Proof.
+  intros H A B. destruct (si_pk _ _ H v j A) as [P _]. destruct (si_pk _ _ H v' j B) as [P' _]. congruence.
+Qed.
+
+Lemma Frame_trans stk ps a b c : Frame stk ps a b -> Frame stk ps b c -> Frame stk ps a c.
+Proof.
+  intros H1 H2. constructor.
+  - etransitivity; [apply H1|apply H2].
+  - intros v j H. apply (fr_jobof _ _ _ _ H2), (fr_jobof _ _ _ _ H1), H.
+  - intros j Hj. rewrite (fr_pk _ _ _ _ H2); [apply (fr_pk _ _ _ _ H1); exact Hj|].
+    pose proof (fr_next _ _ _ _ H1). lia.
+  - intros j Hj. eapply sub_trans; [apply (fr_pa _ _ _ _ H1); exact Hj|apply (fr_pa _ _ _ _ H2)].
+    pose proof (fr_next _ _ _ _ H1). lia.
+  - intros j Hj. eapply sub_trans; [apply (fr_ch _ _ _ _ H1); exact Hj|apply (fr_ch _ _ _ _ H2)].
+    pose proof (fr_next _ _ _ _ H1). lia.
+  - intros k j Hk Hs. eapply sub_trans; [apply (fr_frozen _ _ _ _ H2 k j); [apply (fr_jobof _ _ _ _ H1), Hk|exact Hs]|].
+    apply (fr_frozen _ _ _ _ H1 k j Hk Hs).
+  - intros k j Hc Ha. destruct (jobof b k) as [j'|] eqn:Eb.
+    + pose proof (fr_jobof _ _ _ _ H2 k j' Eb) as E. rewrite Hc in E. inversion E; subst j'.
+      apply (fr_fresh _ _ _ _ H1 k j Eb Ha).
+    + pose proof (fr_fresh _ _ _ _ H2 k j Hc Eb). pose proof (fr_next _ _ _ _ H1). lia.
+  - intros k j q Hc Hq. destruct (fr_pa_new _ _ _ _ H2 k j q Hc Hq) as [[Hb Hqb]|[Hp|Hn]].
+    + destruct (fr_pa_new _ _ _ _ H1 k j q Hb Hqb) as [?|[?|?]]; auto.
+    + auto.
+    + right. right. destruct (jobof a q) as [jq|] eqn:Eq; [|reflexivity].
+      rewrite (fr_jobof _ _ _ _ H1 q jq Eq) in Hn. discriminate.
+Qed.
+
+Definition Ctx (stk : list N) (st : sstate) (par : nat) (ps : vset) : Prop :=
+  par < st_next st /\ pk st par = ps /\
+  ((stk = [] /\ ps = []) \/ (exists p rest, stk = p :: rest /\ ps = [p] /\ jobof st p = Some par)) /\
+  (forall p q, In p ps -> In q stk -> (p <= q)%N).
+
+Definition Pend (st : sstate) (par : nat) (ps : vset) (r : vset) : Prop :=
+  forall p k jk, In p ps -> jobof st k = Some jk -> In p (pa st jk) ->
+  forall x, In x (reach st jk) -> In x (ch st par) \/ In x r.
+
+Lemma Ctx_in stk st par ps p : Ctx stk st par ps -> In p ps -> In p stk /\ jobof st p = Some par /\ ps = [p].
+Proof.
+  intros (_ & _ & [[_ ->]|(p0 & rest & -> & -> & Hj)] & _) Hp; [destruct Hp|].
+  destruct Hp as [<-|[]]. repeat split; auto. left. reflexivity.
+Qed.
+
+(* the job of the caller is not the job of any package outside of the stack *)
+Lemma Ctx_other stk st par ps k jk : SI stk st -> Ctx stk st par ps -> jobof st k = Some jk -> ~ In k stk -> jk <> par.
+Proof.
+  intros HS (_ & Hpk & [[_ ->]|(p0 & rest & -> & -> & Hj)] & _) Hk Hn ->.
+  - destruct (si_pk _ _ HS k par Hk) as [P _]. congruence.
+  - apply Hn. left. eapply SI_inj; eassumption.
+Qed.
+
+(* ---- job.parents |= parentJob.pkgs for a known job *)
+Lemma op_known stk st par ps v j :
+  SI stk st -> Ctx stk st par ps -> jobof st v = Some j -> (forall p, In p ps -> (v < p)%N) ->
+  let a := get_job st j in
+  let st1 := set_job st j (mkJob (a_pkgs a) (union (a_parents a) ps) (a_childs a)) in
+  SI stk st1 /\ Frame stk ps st st1 /\
+  (forall k, pk st1 k = pk st k) /\ (forall k, ch st1 k = ch st k) /\
+  (forall x, In x (pa st1 j) <-> In x (pa st j) \/ In x ps) /\ (forall k, k <> j -> pa st1 k = pa st k).
+Proof.
+  intros HS HC Hv Hlt a st1.
+  assert (Gj : get_job st1 j = mkJob (a_pkgs a) (union (a_parents a) ps) (a_childs a)) by apply get_set_job_same.
+  assert (Go : forall k, k <> j -> get_job st1 k = get_job st k) by (intros; now apply get_set_job_other).
+  assert (PK : forall k, pk st1 k = pk st k).
+  { intros k. unfold pk. destruct (Nat.eq_dec k j) as [->|Hk]; [rewrite Gj; reflexivity|now rewrite Go]. }
+  assert (CH : forall k, ch st1 k = ch st k).
+  { intros k. unfold ch. destruct (Nat.eq_dec k j) as [->|Hk]; [rewrite Gj; reflexivity|now rewrite Go]. }
+  assert (PAj : forall x, In x (pa st1 j) <-> In x (pa st j) \/ In x ps).
+  { intros x. unfold pa at 1. rewrite Gj. simpl. apply In_union. }
+  assert (PAo : forall k, k <> j -> pa st1 k = pa st k) by (intros k Hk; unfold pa; now rewrite Go).
+  assert (RE : forall k, reach st1 k = reach st k).
+  { intros k. unfold reach, reach_set. fold (pk st1 k) (ch st1 k) (pk st k) (ch st k). now rewrite PK, CH. }
+  assert (JO : forall x, jobof st1 x = jobof st x) by reflexivity.
+  assert (NS : forall p, In p ps -> ~ In v stk).
+  { intros p Hp Hin. destruct HC as (_ & _ & _ & Hs). pose proof (Hs p v Hp Hin). pose proof (Hlt p Hp). lia. }
+  split; [|split; [|split; [exact PK|split; [exact CH|split; [exact PAj|exact PAo]]]]].
+  - constructor.
+    + intros x k Hx. rewrite PK. apply (si_pk _ _ HS x k Hx).
+    + intros x k Hx. apply (si_even _ _ HS x k Hx).
+    + intros k jk q Hk Hq. destruct (Nat.eq_dec jk j) as [->|Hj].
+      * apply PAj in Hq as [Hq|Hq]; [apply (si_par _ _ HS k j q Hk Hq)|].
+        destruct (Ctx_in _ _ _ _ _ HC Hq) as (_ & Hp & _).
+        assert (k = v) by (eapply SI_inj; eassumption). subst k.
+        split; [exists par; exact Hp|apply Hlt; exact Hq].
+      * rewrite PAo in Hq by exact Hj. apply (si_par _ _ HS k jk q Hk Hq).
+    + intros k jk q jq Hk Hq Hn Hjq. rewrite RE, CH. destruct (Nat.eq_dec jk j) as [->|Hj].
+      * apply PAj in Hq as [Hq|Hq]; [apply (si_closed _ _ HS k j q jq Hk Hq Hn Hjq)|].
+        exfalso. apply Hn. apply (Ctx_in _ _ _ _ _ HC Hq).
+      * rewrite PAo in Hq by exact Hj. apply (si_closed _ _ HS k jk q jq Hk Hq Hn Hjq).
+    + intros p jp q Hp Hjp Hq. destruct (Nat.eq_dec jp j) as [->|Hj].
+      * apply PAj in Hq as [Hq|Hq]; [apply (si_stk_par _ _ HS p j q Hp Hjp Hq)|].
+        apply (Ctx_in _ _ _ _ _ HC Hq).
+      * rewrite PAo in Hq by exact Hj. apply (si_stk_par _ _ HS p jp q Hp Hjp Hq).
+    + intros p Hp. apply (si_stk_known _ _ HS p Hp).
+    + apply (si_nodup _ _ HS).
+    + intros k. apply (si_listed _ _ HS k).
+  - constructor.
+    + apply Nat.le_refl.
+    + intros x k Hx. exact Hx.
+    + intros k Hk. rewrite PK. reflexivity.
+    + intros k Hk x Hx. destruct (Nat.eq_dec k j) as [->|Hj]; [apply PAj; left; exact Hx|rewrite PAo by exact Hj; exact Hx].
+    + intros k Hk. rewrite CH. apply sub_refl.
+    + intros k j0 Hk Hn. rewrite CH. apply sub_refl.
+    + intros k j0 H1 H2. rewrite JO in H1. congruence.
+    + intros k j0 q Hk Hq. destruct (Nat.eq_dec j0 j) as [->|Hj].
+      * apply PAj in Hq as [Hq|Hq]; [left; split; assumption|right; left; exact Hq].
+      * rewrite PAo in Hq by exact Hj. left. split; assumption.
+Qed.
+
+(* ---- job.childs |= <returned set>, for the job of the caller *)
+Lemma op_childs stk st par ps cs :
+  SI stk st -> Ctx stk st par ps ->
+  let st1 := add_childs_of st par cs in
+  SI stk st1 /\ Frame stk ps st st1 /\
+  (forall k, pk st1 k = pk st k) /\ (forall k, pa st1 k = pa st k) /\
+  (forall x, In x (ch st1 par) <-> In x (ch st par) \/ In x cs) /\ (forall k, k <> par -> ch st1 k = ch st k).
+Proof.
+  intros HS HC st1. unfold add_childs_of in st1.
+  set (a := get_job st par) in *.
+  assert (Gj : get_job st1 par = mkJob (a_pkgs a) (a_parents a) (union (a_childs a) cs)) by apply get_set_job_same.
+  assert (Go : forall k, k <> par -> get_job st1 k = get_job st k) by (intros; now apply get_set_job_other).
+  assert (PK : forall k, pk st1 k = pk st k).
+  { intros k. unfold pk. destruct (Nat.eq_dec k par) as [->|Hk]; [rewrite Gj; reflexivity|now rewrite Go]. }
+  assert (PA : forall k, pa st1 k = pa st k).
+  { intros k. unfold pa. destruct (Nat.eq_dec k par) as [->|Hk]; [rewrite Gj; reflexivity|now rewrite Go]. }
+  assert (CHj : forall x, In x (ch st1 par) <-> In x (ch st par) \/ In x cs).
+  { intros x. unfold ch at 1. rewrite Gj. simpl. apply In_union. }
+  assert (CHo : forall k, k <> par -> ch st1 k = ch st k) by (intros k Hk; unfold ch; now rewrite Go).
+  assert (JO : forall x, jobof st1 x = jobof st x) by reflexivity.
+  split; [|split; [|split; [exact PK|split; [exact PA|split; [exact CHj|exact CHo]]]]].
+  - constructor.
+    + intros x k Hx. rewrite PK. apply (si_pk _ _ HS x k Hx).
+    + intros x k Hx. apply (si_even _ _ HS x k Hx).
+    + intros k jk q Hk Hq. rewrite PA in Hq. apply (si_par _ _ HS k jk q Hk Hq).
+    + intros k jk q jq Hk Hq Hn Hjq. rewrite PA in Hq.
+      assert (Hjq' : jq <> par) by (eapply Ctx_other; eassumption).
+      assert (Hjk : jk <> par).
+      { intros ->. destruct HC as (_ & Hpk & [[_ ->]|(p0 & rest & -> & -> & Hj)] & _).
+        - destruct (si_pk _ _ HS k par Hk) as [P _]. congruence.
+        - assert (k = p0) by (eapply SI_inj; eassumption). subst k.
+          apply Hn. eapply (si_stk_par _ _ HS p0 par q); [left; reflexivity|exact Hj|exact Hq]. }
+      rewrite CHo by exact Hjq'. unfold reach. rewrite Go by exact Hjk. apply (si_closed _ _ HS k jk q jq Hk Hq Hn Hjq).
+    + intros p jp q Hp Hjp Hq. rewrite PA in Hq. apply (si_stk_par _ _ HS p jp q Hp Hjp Hq).
+    + intros p Hp. apply (si_stk_known _ _ HS p Hp).
+    + apply (si_nodup _ _ HS).
+    + intros k. apply (si_listed _ _ HS k).
+  - constructor.
+    + apply Nat.le_refl.
+    + intros x k Hx. exact Hx.
+    + intros k Hk. rewrite PK. reflexivity.
+    + intros k Hk. rewrite PA. apply sub_refl.
+    + intros k Hk x Hx. destruct (Nat.eq_dec k par) as [->|Hj]; [apply CHj; left; exact Hx|rewrite CHo by exact Hj; exact Hx].
+    + intros k j0 Hk Hn. assert (j0 <> par) by (eapply Ctx_other; eassumption). rewrite CHo by assumption. apply sub_refl.
+    + intros k j0 H1 H2. rewrite JO in H1. congruence.
+    + intros k j0 q Hk Hq. rewrite PA in Hq. left. split; assumption.
+Qed.
+
+Lemma listed_append (m : list (str * list nat)) name j :
+  exists a b, flat_map snd m = a ++ b /\
+    flat_map snd (update_str name (fun o => match o with Some l => l ++ [j] | None => [j] end) m) = a ++ j :: b.
+Proof.
+  induction m as [|[k0 v0] m IH]; simpl.
+  - exists [], []. split; reflexivity.
+  - destruct (str_eqb name k0).
+    + exists v0, (flat_map snd m). simpl. split; [reflexivity|]. rewrite <- app_assoc. reflexivity.
+    + destruct IH as (a & b & E1 & E2). exists (v0 ++ a), b. simpl. rewrite E1, E2, !app_assoc. split; reflexivity.
+Qed.
+
+(* ---- a new AbstractJob for a package that is seen for the first time *)
+Lemma op_register stk st par ps sid s :
+  SI stk st -> Ctx stk st par ps -> jobof st (s_vid s) = None -> N.even (s_vid s) = true ->
+  (forall p, In p ps -> (s_vid s < p)%N) ->
+  let j := st_next st in
+  let st1 := snd (register_pkg st sid s par) in
+  fst (register_pkg st sid s par) = j /\
+  SI (s_vid s :: stk) st1 /\ Frame stk ps st st1 /\ Ctx (s_vid s :: stk) st1 j [s_vid s] /\
+  jobof st1 (s_vid s) = Some j /\ Pend st1 j [s_vid s] [] /\
+  (forall x, In x (reach st1 j) -> x = s_vid s) /\ sub ps (pa st1 j) /\
+  (forall k, k <> j -> get_job st1 k = get_job st k) /\
+  (forall x, x <> s_vid s -> jobof st1 x = jobof st x) /\
+  lookupN (s_vid s) (st_ref st1) = Some sid /\ lookupN (s_vid s) (st_v2n st1) = Some (s_name s) /\
+  (forall x, x <> s_vid s -> lookupN x (st_ref st1) = lookupN x (st_ref st) /\ lookupN x (st_v2n st1) = lookupN x (st_v2n st)).
+Proof.
+  intros HS HC Hn Hev Hlt j st1.
+  set (v := s_vid s) in *.
+  destruct HC as (Hpar & Hpk & Hshape & Hsorted).
+  assert (HC : Ctx stk st par ps) by (repeat split; assumption).
+  unfold register_pkg, alloc_job in st1. simpl in st1.
+  set (nj := mkJob [v] (a_pkgs (get_job st par)) []) in *.
+  assert (Gj : get_job st1 j = nj).
+  { unfold get_job, st1. simpl. unfold j. rewrite Nat.eqb_refl. reflexivity. }
+  assert (Go : forall k, k <> j -> get_job st1 k = get_job st k).
+  { intros k Hk. unfold get_job, st1. simpl. apply Nat.eqb_neq in Hk. unfold j in Hk. rewrite Hk. reflexivity. }
+  assert (Jv : jobof st1 v = Some j).
+  { unfold jobof, st1. simpl. fold v. rewrite N.eqb_refl. reflexivity. }
+  assert (Jo : forall x, x <> v -> jobof st1 x = jobof st x).
+  { intros x Hx. unfold jobof, st1. simpl. fold v. apply N.eqb_neq in Hx. rewrite Hx. reflexivity. }
+  assert (Jold : forall x k, jobof st x = Some k -> jobof st1 x = Some k /\ k < j /\ x <> v).
+  { intros x k Hx. assert (x <> v) by (intros ->; congruence). rewrite Jo by assumption.
+    split; [exact Hx|]. split; [apply (si_pk _ _ HS x k Hx)|assumption]. }
+  assert (Jinv : forall x k, jobof st1 x = Some k -> (x = v /\ k = j) \/ (x <> v /\ jobof st x = Some k /\ k < j)).
+  { intros x k Hx. destruct (N.eq_dec x v) as [->|Hxv].
+    - left. rewrite Jv in Hx. inversion Hx. auto.
+    - right. rewrite Jo in Hx by exact Hxv. split; [exact Hxv|]. split; [exact Hx|apply (si_pk _ _ HS x k Hx)]. }
+  assert (PKj : pk st1 j = [v]) by (unfold pk; rewrite Gj; reflexivity).
+  assert (PAj : pa st1 j = ps) by (unfold pa; rewrite Gj; exact Hpk).
+  assert (CHj : ch st1 j = []) by (unfold ch; rewrite Gj; reflexivity).
+  assert (PKo : forall k, k <> j -> pk st1 k = pk st k) by (intros k Hk; unfold pk; now rewrite Go).
+  assert (PAo : forall k, k <> j -> pa st1 k = pa st k) by (intros k Hk; unfold pa; now rewrite Go).
+  assert (CHo : forall k, k <> j -> ch st1 k = ch st k) by (intros k Hk; unfold ch; now rewrite Go).
+  assert (REo : forall k, k <> j -> reach st1 k = reach st k) by (intros k Hk; unfold reach; now rewrite Go).
+  assert (Kn : forall q, known st q -> known st1 q /\ q <> v).
+  { intros q (k & Hk). destruct (Jold q k Hk) as (A & _ & B). split; [exists k; exact A|exact B]. }
+  assert (Lv : forall k, live st1 k <-> live st k \/ k = j).
+  { intros k. split.
+    - intros (x & Hx). destruct (Jinv x k Hx) as [[_ ->]|(_ & Hx' & _)]; [right; reflexivity|left; exists x; exact Hx'].
+    - intros [(x & Hx)| ->]; [exists x; apply (Jold x k Hx)|exists v; exact Jv]. }
+  assert (Nlj : ~ In j (jobs_listed st)).
+  { intros Hin. apply (si_listed _ _ HS) in Hin as (x & Hx). destruct (si_pk _ _ HS x j Hx) as [_ Hlt']. unfold j in Hlt'. lia. }
+  destruct (listed_append (st_n2j st) (if s_isolate s then s_name s else s_recipe s) j) as (la & lb & El & El').
+  assert (Ls : jobs_listed st1 = la ++ j :: lb) by (unfold jobs_listed, st1; simpl; exact El').
+  assert (Lo : jobs_listed st = la ++ lb) by exact El.
+  assert (Pin : forall p, In p ps -> In p stk /\ jobof st p = Some par /\ ps = [p]) by (intros p Hp; eapply Ctx_in; eassumption).
+  split; [reflexivity|].
+  split; [|split; [|split; [|split; [exact Jv|split; [|split; [|split; [|split; [exact Go|split; [exact Jo|]]]]]]]]].
+  - (* SI (v :: stk) st1 *)
+    constructor.
+    + intros x k Hx. destruct (Jinv x k Hx) as [[-> ->]|(Hxv & Hx' & Hk)].
+      * split; [exact PKj|]. unfold st1, j. simpl. lia.
+      * rewrite PKo by lia. destruct (si_pk _ _ HS x k Hx') as [A B]. split; [exact A|]. unfold st1. simpl. lia.
+    + intros x k Hx. destruct (Jinv x k Hx) as [[-> ->]|(Hxv & Hx' & Hk)]; [exact Hev|apply (si_even _ _ HS x k Hx')].
+    + intros k jk q Hk Hq. destruct (Jinv k jk Hk) as [[-> ->]|(Hkv & Hk' & Hjk)].
+      * rewrite PAj in Hq. destruct (Pin q Hq) as (_ & Hp & _). split; [apply Kn; exists par; exact Hp|apply Hlt; exact Hq].
+      * rewrite PAo in Hq by lia. destruct (si_par _ _ HS k jk q Hk' Hq) as [A B]. split; [apply Kn; exact A|exact B].
+    + intros k jk q jq Hk Hq Hns Hjq. destruct (Jinv k jk Hk) as [[-> ->]|(Hkv & Hk' & Hjk)].
+      * exfalso. rewrite PAj in Hq. apply Hns. right. apply (Pin q Hq).
+      * rewrite PAo in Hq by lia. destruct (Jinv q jq Hjq) as [[-> ->]|(Hqv & Hq' & Hjq')].
+        -- exfalso. apply Hns. left. reflexivity.
+        -- rewrite REo, CHo by lia. apply (si_closed _ _ HS k jk q jq Hk' Hq); [|exact Hq'].
+           intros Hin. apply Hns. right. exact Hin.
+    + intros p jp q Hp Hjp Hq. destruct (Jinv p jp Hjp) as [[-> ->]|(Hpv & Hp' & Hjp')].
+      * rewrite PAj in Hq. right. apply (Pin q Hq).
+      * rewrite PAo in Hq by lia. destruct Hp as [Hp|Hp]; [congruence|].
+        right. apply (si_stk_par _ _ HS p jp q Hp Hp' Hq).
+    + intros p [<-|Hp]; [exists j; exact Jv|apply Kn, (si_stk_known _ _ HS p Hp)].
+    + rewrite Ls. pose proof (si_nodup _ _ HS) as ND. rewrite Lo in ND.
+      apply NoDup_app_iff in ND as (Na & Nb & Dab). rewrite Lo in Nlj.
+      apply NoDup_app_iff. split; [exact Na|]. split.
+      * constructor; [intros Hx; apply Nlj, in_or_app; right; exact Hx|exact Nb].
+      * intros x Hx [<-|Hy]; [apply Nlj, in_or_app; left; exact Hx|exact (Dab x Hx Hy)].
+    + intros k. rewrite Lv, <- (si_listed _ _ HS k), Ls, Lo, !in_app_iff. simpl. intuition congruence.
+  - (* Frame *)
+    constructor.
+    + unfold st1. simpl. lia.
+    + intros x k Hx. apply (Jold x k Hx).
+    + intros k Hk. apply PKo. unfold j. lia.
+    + intros k Hk. rewrite PAo by (unfold j; lia). apply sub_refl.
+    + intros k Hk. rewrite CHo by (unfold j; lia). apply sub_refl.
+    + intros k j0 Hk _. destruct (Jold k j0 Hk) as (_ & Hj0 & _). rewrite CHo by lia. apply sub_refl.
+    + intros k j0 H1 H2. destruct (Jinv k j0 H1) as [[_ ->]|(_ & H3 & _)]; [apply Nat.le_refl|congruence].
+    + intros k j0 q Hk Hq. destruct (Jinv k j0 Hk) as [[-> ->]|(Hkv & Hk' & Hj0)].
+      * rewrite PAj in Hq. right. left. exact Hq.
+      * rewrite PAo in Hq by lia. left. split; assumption.
+  - (* Ctx *)
+    split; [unfold st1, j; simpl; lia|]. split; [exact PKj|]. split.
+    + right. exists v, stk. repeat split; auto.
+    + intros p q [<-|[]] [<-|Hq]; [lia|].
+      destruct Hshape as [[-> _]|(p0 & rest & -> & -> & _)]; [destruct Hq|].
+      pose proof (Hlt p0 (or_introl eq_refl)). pose proof (Hsorted p0 q (or_introl eq_refl) Hq). lia.
+  - (* Pend: nobody has v as parent yet *)
+    intros p k jk [<-|[]] Hk Hq. exfalso. destruct (Jinv k jk Hk) as [[-> ->]|(Hkv & Hk' & Hjk)].
+    + rewrite PAj in Hq. destruct (Pin v Hq) as (_ & Hp & _). congruence.
+    + rewrite PAo in Hq by lia. destruct (si_par _ _ HS k jk v Hk' Hq) as [(jv & Hjv) _]. congruence.
+  - intros x Hx. apply In_reach in Hx. rewrite PKj, CHj in Hx. destruct Hx as [[<-|[]]|[]]. reflexivity.
+  - rewrite PAj. apply sub_refl.
+  - unfold st1. simpl. fold v. rewrite N.eqb_refl. split; [reflexivity|]. split; [reflexivity|].
+    intros x Hx. apply N.eqb_neq in Hx. rewrite Hx. split; reflexivity.
+Qed.
+
+Lemma Ctx_frame stk st st' par ps : Ctx stk st par ps -> Frame stk ps st st' -> Ctx stk st' par ps.
+Proof.
+  intros (A & B & C & D) F. split; [pose proof (fr_next _ _ _ _ F); lia|].
+  split; [rewrite (fr_pk _ _ _ _ F) by exact A; exact B|]. split; [|exact D].
+  destruct C as [C|(p & rest & C1 & C2 & C3)]; [left; exact C|right].
+  exists p, rest. repeat split; auto. apply (fr_jobof _ _ _ _ F), C3.
+Qed.
+
+Lemma Frame_push stk ps v st st1 st2 :
+  jobof st v = None -> Frame stk ps st st1 -> Frame (v :: stk) [v] st1 st2 -> Frame stk ps st st2.
+Proof.
+  intros Hv H1 H2. constructor.
+  - etransitivity; [apply H1|apply H2].
+  - intros x j H. apply (fr_jobof _ _ _ _ H2), (fr_jobof _ _ _ _ H1), H.
+  - intros j Hj. rewrite (fr_pk _ _ _ _ H2); [apply (fr_pk _ _ _ _ H1); exact Hj|].
+    pose proof (fr_next _ _ _ _ H1). lia.
+  - intros j Hj. eapply sub_trans; [apply (fr_pa _ _ _ _ H1); exact Hj|apply (fr_pa _ _ _ _ H2)].
+    pose proof (fr_next _ _ _ _ H1). lia.
+  - intros j Hj. eapply sub_trans; [apply (fr_ch _ _ _ _ H1); exact Hj|apply (fr_ch _ _ _ _ H2)].
+    pose proof (fr_next _ _ _ _ H1). lia.
+  - intros k j Hk Hs. eapply sub_trans; [apply (fr_frozen _ _ _ _ H2 k j); [apply (fr_jobof _ _ _ _ H1), Hk|]|].
+    + intros [<-|Hin]; [congruence|contradiction].
+    + apply (fr_frozen _ _ _ _ H1 k j Hk Hs).
+  - intros k j Hc Ha. destruct (jobof st1 k) as [j'|] eqn:Eb.
+    + pose proof (fr_jobof _ _ _ _ H2 k j' Eb) as E. rewrite Hc in E. inversion E; subst j'.
+      apply (fr_fresh _ _ _ _ H1 k j Eb Ha).
+    + pose proof (fr_fresh _ _ _ _ H2 k j Hc Eb). pose proof (fr_next _ _ _ _ H1). lia.
+  - intros k j q Hc Hq. destruct (fr_pa_new _ _ _ _ H2 k j q Hc Hq) as [[Hb Hqb]|[[<-|[]]|Hn]].
+    + destruct (fr_pa_new _ _ _ _ H1 k j q Hb Hqb) as [?|[?|?]]; auto.
+    + right. right. exact Hv.
+    + right. right. destruct (jobof st q) as [jq|] eqn:Eq; [|reflexivity].
+      rewrite (fr_jobof _ _ _ _ H1 q jq Eq) in Hn. discriminate.
+Qed.
+
+(* the package on top of the stack is finished *)
+Lemma SI_pop stk v j st :
+  SI (v :: stk) st -> jobof st v = Some j -> (forall q, In q stk -> (v < q)%N) -> Pend st j [v] [] -> SI stk st.
+Proof.
+  intros HS Hv Hlt HP. constructor.
+  - apply (si_pk _ _ HS).
+  - apply (si_even _ _ HS).
+  - apply (si_par _ _ HS).
+  - intros k jk q jq Hk Hq Hn Hjq. destruct (N.eq_dec q v) as [->|Hqv].
+    + rewrite Hv in Hjq. inversion Hjq; subst jq. intros x Hx.
+      destruct (HP v k jk (or_introl eq_refl) Hk Hq x Hx) as [H|[]]. exact H.
+    + apply (si_closed _ _ HS k jk q jq Hk Hq); [|exact Hjq]. intros [E|Hin]; [congruence|contradiction].
+  - intros p jp q Hp Hjp Hq.
+    destruct (si_stk_par _ _ HS p jp q (or_intror Hp) Hjp Hq) as [<-|Hin]; [|exact Hin].
+    exfalso. destruct (si_par _ _ HS p jp v Hjp Hq) as [_ Hlt']. pose proof (Hlt p Hp). lia.
+  - intros p Hp. apply (si_stk_known _ _ HS p (or_intror Hp)).
+  - apply (si_nodup _ _ HS).
+  - apply (si_listed _ _ HS).
+Qed.
+
+(* ---- well-formed graphs *)
+Definition vid_at (g : graph) (i : nat) : N := match nth_error g i with Some s => s_vid s | None => 0%N end.
+
+Definition RankOK (g : graph) (s : step) (ps : vset) : Prop :=
+  forall p, In p ps -> if is_pkg s then (s_vid s < p)%N else vid_at g (s_pkgstep s) = p.
+
+Lemma wf_from_nth g : forall l i k s, wf_from g i l = true -> nth_error l k = Some s -> wf_step g (i + k) s = true.
+Proof.
+  induction l as [|a l IH]; intros i k s H Hn; [destruct k; discriminate|].
+  simpl in H. apply andb_true_iff in H as [H1 H2]. destruct k as [|k]; simpl in Hn.
+  - inversion Hn; subst. now rewrite Nat.add_0_r.
+  - replace (i + S k) with (S i + k) by lia. apply IH; assumption.
+Qed.
+
+Lemma wf_nth g i s : wf g = true -> nth_error g i = Some s -> wf_step g i s = true.
+Proof. intros H Hn. apply (wf_from_nth g g 0 i s H Hn). Qed.
+
+Lemma wf_dep_rank g i s d pv :
+  wf g = true -> nth_error g i = Some s -> In d (alldeps s) -> vid_at g (s_pkgstep s) = pv ->
+  d < i /\ exists sd, nth_error g d = Some sd /\ RankOK g sd [pv].
+Proof.
+  intros W Hn Hd Hpv. pose proof (wf_nth g i s W Hn) as Hs. unfold wf_step in Hs.
+  apply andb_true_iff in Hs as [_ Hs]. rewrite forallb_forall in Hs. specialize (Hs d Hd).
+  unfold wf_dep in Hs. apply andb_true_iff in Hs as [Hlt Hs]. apply Nat.ltb_lt in Hlt. split; [exact Hlt|].
+  destruct (nth_error g d) as [sd|] eqn:Ed; [|discriminate].
+  unfold vid_at in Hpv. destruct (nth_error g (s_pkgstep s)) as [ps0|] eqn:Ep; [|discriminate].
+  exists sd. split; [reflexivity|]. intros p [<-|[]]. destruct (is_pkg sd) eqn:Ek.
+  - apply andb_true_iff in Hs as [Hs _]. apply N.ltb_lt in Hs. rewrite <- Hpv. exact Hs.
+  - apply Nat.eqb_eq in Hs. unfold vid_at. rewrite Hs, Ep. exact Hpv.
+Qed.
+
+Lemma wf_pkg_self g i s : wf g = true -> nth_error g i = Some s -> is_pkg s = true ->
+  s_pkgstep s = i /\ N.even (s_vid s) = true.
+Proof.
+  intros W Hn Hk. pose proof (wf_nth g i s W Hn) as Hs. unfold wf_step in Hs.
+  apply andb_true_iff in Hs as [Hs _]. apply andb_true_iff in Hs as [Hs _]. apply andb_true_iff in Hs as [H1 H2].
+  rewrite Hk in H1, H2. apply Nat.eqb_eq in H2. split; [exact H2|].
+  destruct (N.even (s_vid s)); [reflexivity|discriminate].
+Qed.
+
+Lemma wf_nonpkg_odd g i s : wf g = true -> nth_error g i = Some s -> is_pkg s = false -> N.even (s_vid s) = false.
+Proof.
+  intros W Hn Hk. pose proof (wf_nth g i s W Hn) as Hs. unfold wf_step in Hs.
+  apply andb_true_iff in Hs as [Hs _]. apply andb_true_iff in Hs as [Hs _]. apply andb_true_iff in Hs as [H1 _].
+  rewrite Hk in H1. destruct (N.even (s_vid s)); [discriminate|reflexivity].
+Qed.
+
+(* ---- addStep *)
+Definition StepSpec (g : graph) (rec : nat -> nat -> sstate -> res (sstate * vset)) : Prop :=
+  forall sid par st st' r stk s ps,
+  rec sid par st = Ok (st', r) -> nth_error g sid = Some s ->
+  SI stk st -> Ctx stk st par ps -> RankOK g s ps -> Pend st par ps [] ->
+  SI stk st' /\ Frame stk ps st st' /\ Pend st' par ps r.
+
+Lemma loop_spec g rec : StepSpec g rec -> forall ds j st st' stk ps,
+  (forall d, In d ds -> exists sd, nth_error g d = Some sd /\ RankOK g sd ps) ->
+  loop_deps rec ds j st = Ok st' -> SI stk st -> Ctx stk st j ps -> Pend st j ps [] ->
+  SI stk st' /\ Frame stk ps st st' /\ Pend st' j ps [].
+Proof.
+  intros HR. induction ds as [|d ds IH]; intros j st st' stk ps Hds H HS HC HP; simpl in H.
+  - inversion H; subst. split; [exact HS|]. split; [apply Frame_refl|exact HP].
+  - destruct (rec d j st) as [[st1 cs]| |] eqn:Er; try discriminate.
+    destruct (Hds d (or_introl eq_refl)) as (sd & Hsd & Hrk).
+    destruct (HR d j st st1 cs stk sd ps Er Hsd HS HC Hrk HP) as (S1 & F1 & P1).
+    pose proof (Ctx_frame _ _ _ _ _ HC F1) as C1.
+    destruct (op_childs stk st1 j ps cs S1 C1) as (S2 & F2 & PK2 & PA2 & CHj & CHo).
+    set (st2 := add_childs_of st1 j cs) in *.
+    pose proof (Ctx_frame _ _ _ _ _ C1 F2) as C2.
+    assert (P2 : Pend st2 j ps []).
+    { intros p k jk Hp Hk Hq x Hx. left. change (jobof st1 k = Some jk) in Hk. rewrite PA2 in Hq.
+      assert (Hjk : jk <> j).
+      { intros ->. destruct (Ctx_in _ _ _ _ _ C1 Hp) as (_ & Hpj & _).
+        assert (k = p) by (eapply SI_inj; eassumption). subst k.
+        destruct (si_par _ _ S1 p j p Hk Hq) as [_ Hlt]. lia. }
+      assert (Hx1 : In x (reach st1 jk)).
+      { apply In_reach. apply In_reach in Hx. rewrite PK2, CHo in Hx by exact Hjk. exact Hx. }
+      apply CHj. destruct (P1 p k jk Hp Hk Hq x Hx1) as [A|A]; auto. }
+    destruct (IH j st2 st' stk ps (fun d' Hd' => Hds d' (or_intror Hd')) H S2 C2 P2) as (S3 & F3 & P3).
+    split; [exact S3|]. split; [|exact P3].
+    eapply Frame_trans; [exact F1|]. eapply Frame_trans; [exact F2|exact F3].
+Qed.
+
+Lemma reach_same st st' k : pk st' k = pk st k -> ch st' k = ch st k -> forall x, In x (reach st' k) <-> In x (reach st k).
+Proof. intros A B x. rewrite !In_reach, A, B. reflexivity. Qed.
+
+Lemma add_step_spec g : wf g = true -> forall fuel, StepSpec g (add_step fuel g).
+Proof.
+  intros W. induction fuel as [|f IHf]; intros sid par st st' r stk s ps H Hs HS HC HR HP; [discriminate|].
+  cbn [add_step] in H. rewrite Hs in H.
+  destruct (lookupN (s_vid s) (st_v2j st)) as [j|] eqn:Ej.
+  - (* the package is known: only the parents grow *)
+    assert (Hk : is_pkg s = true).
+    { destruct (is_pkg s) eqn:Ek; [reflexivity|].
+      pose proof (wf_nonpkg_odd g sid s W Hs Ek) as Ho. pose proof (si_even _ _ HS _ _ Ej). congruence. }
+    assert (Hlt : forall p, In p ps -> (s_vid s < p)%N).
+    { intros p Hp. specialize (HR p Hp). rewrite Hk in HR. exact HR. }
+    destruct (op_known stk st par ps (s_vid s) j HS HC Ej Hlt) as (S1 & F1 & PK1 & CH1 & PAj & PAo).
+    assert (Hpk : a_pkgs (get_job st par) = ps) by apply HC. rewrite Hpk in H.
+    inversion H; subst st' r; clear H.
+    set (st1 := set_job st j _) in *.
+    split; [exact S1|]. split; [exact F1|].
+    intros p k jk Hp Hkj Hq x Hx. change (jobof st k = Some jk) in Hkj.
+    destruct (Nat.eq_dec jk j) as [->|Hj].
+    + right. exact Hx.
+    + left. rewrite PAo in Hq by exact Hj. rewrite CH1.
+      apply (reach_same st st1 jk (PK1 jk) (CH1 jk)) in Hx.
+      destruct (HP p k jk Hp Hkj Hq x Hx) as [A|[]]. exact A.
+  - destruct (is_pkg s) eqn:Ek.
+    + (* a new package *)
+      destruct (register_pkg st sid s par) as [j st1] eqn:Er.
+      destruct (loop_deps (add_step f g) (alldeps s) j st1) as [st2| |] eqn:El; try discriminate.
+      inversion H; subst st' r; clear H.
+      destruct (wf_pkg_self g sid s W Hs Ek) as [Hself Hev].
+      assert (Hlt : forall p, In p ps -> (s_vid s < p)%N).
+      { intros p Hp. specialize (HR p Hp). rewrite Ek in HR. exact HR. }
+      pose proof (op_register stk st par ps sid s HS HC Ej Hev Hlt) as OR. rewrite Er in OR. simpl in OR.
+      destruct OR as (Ejn & S1 & F1 & C1 & Jv & P1 & _ & _ & Go & Jo & _).
+      rewrite <- Ejn in C1, Jv, P1, Go.
+      set (v := s_vid s) in *.
+      assert (Hds : forall d, In d (alldeps s) -> exists sd, nth_error g d = Some sd /\ RankOK g sd [v]).
+      { intros d Hd. apply (wf_dep_rank g sid s d v W Hs Hd). unfold vid_at. rewrite Hself, Hs. reflexivity. }
+      destruct (loop_spec g (add_step f g) IHf (alldeps s) j st1 st2 (v :: stk) [v] Hds El S1 C1 P1) as (S2 & F2 & P2).
+      pose proof (fr_jobof _ _ _ _ F2 v j Jv) as Jv2.
+      assert (Hvs : forall q, In q stk -> (v < q)%N).
+      { intros q Hq. destruct HC as (_ & _ & [[-> _]|(p0 & rest & -> & -> & _)] & Hsort); [destruct Hq|].
+        pose proof (Hlt p0 (or_introl eq_refl)). pose proof (Hsort p0 q (or_introl eq_refl) Hq). lia. }
+      split; [eapply SI_pop; eassumption|]. split; [eapply Frame_push; eassumption|].
+      intros p k jk Hp Hkj Hq x Hx.
+      destruct (Ctx_in _ _ _ _ _ HC Hp) as (Hpstk & Hppar & _).
+      assert (Hpv : p <> v) by (intros ->; unfold jobof in Hppar; congruence).
+      destruct (fr_pa_new _ _ _ _ F2 k jk p Hkj Hq) as [[Hk1 Hq1]|[[E|[]]|Hn]]; [|congruence|].
+      2:{ rewrite (fr_jobof _ _ _ _ F1 p par Hppar) in Hn. discriminate. }
+      destruct (N.eq_dec k v) as [->|Hkv].
+      * right. rewrite Jv in Hk1. inversion Hk1; subst jk. exact Hx.
+      * left. rewrite Jo in Hk1 by exact Hkv.
+        assert (Hjk : jk <> j) by (destruct (si_pk _ _ HS k jk Hk1) as [_ L]; rewrite <- Ejn; lia).
+        unfold pa in Hq1. rewrite Go in Hq1 by exact Hjk. fold (pa st jk) in Hq1.
+        pose proof (Frame_push _ _ _ _ _ _ Ej F1 F2) as F02.
+        destruct (si_par _ _ HS k jk p Hk1 Hq1) as [_ Hkp].
+        assert (Hks : ~ In k stk).
+        { intros Hin. destruct HC as (_ & _ & _ & Hsort). pose proof (Hsort p k Hp Hin). lia. }
+        destruct (si_pk _ _ HS k jk Hk1) as [_ Ljk].
+        assert (Hx0 : In x (reach st jk)).
+        { apply In_reach. apply In_reach in Hx. rewrite (fr_pk _ _ _ _ F02 jk Ljk) in Hx.
+          destruct Hx as [Hx|Hx]; [left; exact Hx|right; apply (fr_frozen _ _ _ _ F02 k jk Hk1 Hks); exact Hx]. }
+        destruct (HP p k jk Hp Hk1 Hq1 x Hx0) as [A|[]].
+        apply (fr_ch _ _ _ _ F02 par); [apply HC|exact A].
+    + (* a checkout or build step: it belongs to the job of the caller *)
+      destruct (loop_deps (add_step f g) (alldeps s) par st) as [st2| |] eqn:El; try discriminate.
+      inversion H; subst st' r; clear H.
+      assert (Hds : forall d, In d (alldeps s) -> exists sd, nth_error g d = Some sd /\ RankOK g sd ps).
+      { intros d Hd. destruct (wf_dep_rank g sid s d _ W Hs Hd eq_refl) as (_ & sd & Hsd & Hrk).
+        exists sd. split; [exact Hsd|]. intros p Hp. specialize (HR p Hp). rewrite Ek in HR.
+        apply Hrk. left. exact HR. }
+      destruct (loop_spec g (add_step f g) IHf (alldeps s) par st st2 stk ps Hds El HS HC HP) as (S2 & F2 & P2).
+      split; [exact S2|]. split; [exact F2|].
+      intros p k jk Hp Hkj Hq x Hx. destruct (P2 p k jk Hp Hkj Hq x Hx) as [A|[]]. left. exact A.
 Qed.
